@@ -147,8 +147,6 @@ def run_spec(spec, props=("C08",)):
         return A.result(props)
     if kind == "limits":
         G = gr.mk(spec["n"], [tuple(e) for e in spec["edges"]]); N = float(G.order())
-        grid = (0, 3, 7)
-        times = np.linspace(*grid)
         ic = tuple(spec["ic"]) if spec["ic"][0] != "sets" else ("sets", list(spec["ic"][1]), list(spec["ic"][2]))
         from .fam_analytic import degeneracy
         if degeneracy(G, ic, "SIR") not in ("generic", "regular"):
@@ -156,50 +154,52 @@ def run_spec(spec, props=("C08",)):
             A.evals = 1; A.execs = 1; A.states.add("degenerate"); A.trans.add("degenerate")
             A.sample = {"spec": spec, "skipped": "degenerate request"}
             return A.result(props)
-        gamma = 0.7
-        # tau = 0: I(t) = I(0) exp(-gamma t), S constant
-        for name in cat.all_names():
-            inf = cat.info(name)
-            if inf["discrete"] or not cat.supports(name, ic):
-                continue
-            A.evals += 1
-            tag = "%s(%r, tau=0, gamma=%g) on n=%d edges=%r" % (name, ic, gamma, spec["n"], spec["edges"])
-            try:
-                o = cat.call(EoN, name, G, ic, 0.0, gamma, grid, False)
-            except Exception as e:
-                A.add(V("C08", name, "tau=0", "exception", "%s raised %s: %s" % (tag, type(e).__name__, str(e)[:100]))); continue
-            S, I = np.asarray(o[1], dtype=float), np.asarray(o[2], dtype=float)
-            A.states.add((name, "tau0")); A.trans.add((name, "tau0", hsh(spec))); A.nontrivial.add((name, "tau0", hsh(spec)))
-            if not (np.all(np.isfinite(S)) and np.all(np.isfinite(I))):
-                continue   # degenerate closures: reported by C06
-            d = float(np.max(np.abs(I - I[0] * np.exp(-gamma * times)))) / N
-            ds = float(np.max(np.abs(S - S[0]))) / N if inf["model"] == "SIR" else 0.0   # (SIS: S = N - I rises as I decays)
-            A.max["max_rel_dev_tau0"] = max(A.max.get("max_rel_dev_tau0", 0.0), d, ds)
-            if d > 1e-6 or ds > 1e-6:
-                A.add(V("C08", name, "tau=0", "not_pure_recovery", "%s: I deviates from I(0)exp(-gamma t) by %.3g N, S moves by %.3g N" % (tag, d, ds), (), d, 0.0))
-        # gamma = 0: SIS and SIR versions give the same S(t)
-        tau = 0.6
-        for base in ("homogeneous_meanfield_from_graph", "homogeneous_pairwise_from_graph", "heterogeneous_meanfield_from_graph",
-                     "heterogeneous_pairwise_from_graph", "compact_pairwise_from_graph", "effective_degree_from_graph",
-                     "compact_effective_degree_from_graph", "individual_based", "pair_based", "individual_based_pure_IC", "pair_based_pure_IC"):
-            a, b = "SIS_" + base, "SIR_" + base
-            ic2 = ic if ic[0] != "sets" else ("sets", ic[1], [])
-            if not (cat.supports(a, ic2) and cat.supports(b, ic2)):
-                continue
-            A.evals += 1
-            tag = "%s vs %s (%r, tau=%g, gamma=0) on n=%d edges=%r" % (a, b, ic2, tau, spec["n"], spec["edges"])
-            try:
-                oa = cat.call(EoN, a, G, ic2, tau, 0.0, grid, False); ob = cat.call(EoN, b, G, ic2, tau, 0.0, grid, False)
-            except Exception as e:
-                A.add(V("C08", a, "gamma=0", "exception", "%s raised %s: %s" % (tag, type(e).__name__, str(e)[:100]))); continue
-            Sa, Sb = np.asarray(oa[1], dtype=float), np.asarray(ob[1], dtype=float)
-            A.states.add((base, "gamma0")); A.trans.add((base, "gamma0", hsh(spec))); A.nontrivial.add((base, "gamma0", hsh(spec)))
-            if not (np.all(np.isfinite(Sa)) and np.all(np.isfinite(Sb))):
-                continue
-            d = float(np.max(np.abs(Sa - Sb))) / N
-            A.max["max_rel_dev_gamma0"] = max(A.max.get("max_rel_dev_gamma0", 0.0), d)
-            if d > 2e-5:
-                A.add(V("C08", a, "gamma=0", "SIS_SIR_differ", "%s: S(t) differs by %.3g N" % (tag, d), (), d, 2e-5))
+        for grid in ((0, 3, 7), (1.5, 4.5, 7)):
+            times = np.linspace(*grid)
+            gamma = 0.7
+            # tau = 0: I(t) = I(0) exp(-gamma t), S constant
+            for name in cat.all_names():
+                inf = cat.info(name)
+                if inf["discrete"] or not cat.supports(name, ic):
+                    continue
+                A.evals += 1
+                tag = "%s(%r, tau=0, gamma=%g) on n=%d edges=%r" % (name, ic, gamma, spec["n"], spec["edges"])
+                try:
+                    o = cat.call(EoN, name, G, ic, 0.0, gamma, grid, False)
+                except Exception as e:
+                    A.add(V("C08", name, "tau=0", "exception", "%s raised %s: %s" % (tag, type(e).__name__, str(e)[:100]))); continue
+                S, I = np.asarray(o[1], dtype=float), np.asarray(o[2], dtype=float)
+                A.states.add((name, "tau0")); A.trans.add((name, "tau0", hsh(spec))); A.nontrivial.add((name, "tau0", hsh(spec)))
+                if not (np.all(np.isfinite(S)) and np.all(np.isfinite(I))):
+                    continue   # degenerate closures: reported by C06
+                d = float(np.max(np.abs(I - I[0] * np.exp(-gamma * (times - times[0]))))) / N
+                ds = float(np.max(np.abs(S - S[0]))) / N if inf["model"] == "SIR" else 0.0   # (SIS: S = N - I rises as I decays)
+                A.max["max_rel_dev_tau0"] = max(A.max.get("max_rel_dev_tau0", 0.0), d, ds)
+                if d > 1e-6 or ds > 1e-6:
+                    A.add(V("C08", name, "tau=0", "not_pure_recovery", "%s: I deviates from I(0)exp(-gamma t) by %.3g N, S moves by %.3g N" % (tag, d, ds), (), d, 0.0))
+            # gamma = 0: SIS and SIR versions give the same S(t)
+            tau = 0.6
+            for base in ("homogeneous_meanfield_from_graph", "homogeneous_pairwise_from_graph", "heterogeneous_meanfield_from_graph",
+                         "heterogeneous_pairwise_from_graph", "compact_pairwise_from_graph", "effective_degree_from_graph",
+                         "compact_effective_degree_from_graph", "individual_based", "pair_based", "individual_based_pure_IC", "pair_based_pure_IC"):
+                a, b = "SIS_" + base, "SIR_" + base
+                ic2 = ic if ic[0] != "sets" else ("sets", ic[1], [])
+                if not (cat.supports(a, ic2) and cat.supports(b, ic2)):
+                    continue
+                A.evals += 1
+                tag = "%s vs %s (%r, tau=%g, gamma=0) on n=%d edges=%r" % (a, b, ic2, tau, spec["n"], spec["edges"])
+                try:
+                    oa = cat.call(EoN, a, G, ic2, tau, 0.0, grid, False); ob = cat.call(EoN, b, G, ic2, tau, 0.0, grid, False)
+                except Exception as e:
+                    A.add(V("C08", a, "gamma=0", "exception", "%s raised %s: %s" % (tag, type(e).__name__, str(e)[:100]))); continue
+                Sa, Sb = np.asarray(oa[1], dtype=float), np.asarray(ob[1], dtype=float)
+                A.states.add((base, "gamma0")); A.trans.add((base, "gamma0", hsh(spec))); A.nontrivial.add((base, "gamma0", hsh(spec)))
+                if not (np.all(np.isfinite(Sa)) and np.all(np.isfinite(Sb))):
+                    continue
+                d = float(np.max(np.abs(Sa - Sb))) / N
+                A.max["max_rel_dev_gamma0"] = max(A.max.get("max_rel_dev_gamma0", 0.0), d)
+                if d > 2e-5:
+                    A.add(V("C08", a, "gamma=0", "SIS_SIR_differ", "%s: S(t) differs by %.3g N" % (tag, d), (), d, 2e-5))
         A.execs = A.evals
         A.sample = {"spec": spec}
         return A.result(props)
